@@ -464,8 +464,13 @@ func checkOpened(b *sourcebundle.Bundle, root string, out *simkit.Outcome, what 
 		lp, err = b.LocalPathForRemoteSource(p.SourceAddr("a/b"))
 		inside(lp, err, p.String()+"//a/b")
 		b.RemotePackageMeta(p)
-		if err == nil {
-			b.SourceForLocalPath(lp)
+		if err == nil && simkit.Under(filepath.Clean(lp), root) && filepath.Clean(lp) != root {
+			// a path the bundle itself handed out lies in a package directory: it translates back
+			if src, rerr := b.SourceForLocalPath(lp); rerr != nil {
+				out.Violate("C18", "reverse-lookup", "not-found", fmt.Sprintf("%s: %s is what the bundle answers for %s//a/b, yet it is reported as not belonging to the bundle: %v", what, simkit.CanonString(lp), p, rerr))
+			} else if back, berr := b.LocalPathForSource(src); berr != nil || filepath.Clean(back) != filepath.Clean(lp) {
+				out.Violate("C18", "reverse-lookup", "not-inverse", fmt.Sprintf("%s: path %s -> %s -> %q (%v)", what, simkit.CanonString(lp), src, back, berr))
+			}
 		}
 	}
 	for _, rp := range b.RegistryPackages() {
